@@ -685,6 +685,27 @@ def raising_on_stop_sweep(ctx: Ctx, prop: str) -> None:
                 record(ctx, prop, run_spec(spec), "raising-on_stop")
 
 
+def outside_loop_client_sweep(ctx: Ctx, prop: str) -> None:
+    """The client object was constructed before the loop that runs its sessions was running (`client = APIClient(...)` in synchronous set-up
+    code, then `asyncio.run(main())`): every close cause must still reach the application's stop callback, and release everything."""
+    S = L.default_spec
+    t0 = L.core_start()
+    idx = 0
+    for framing in ("plain", "noise"):
+        for keepalive, prog in ((20.0, [["connect"], ["sleep", 3.0], ["disconnect"]]), (1.0, [["connect"], ["sleep", 9.0], ["force"]])):
+            for cause in ("none", "force", "disconnect", "eof", "rst", "etimedout", "garbage", "bad_pb", "peer_disconnect", "silence", "sendfail+cmd"):
+                idx += 1
+                if not ctx.mine(idx):
+                    continue
+                faults: list[dict[str, Any]] = []
+                if cause == "sendfail+cmd":
+                    faults = [{"kind": "sendfail", "point": {"t": t0 + 1.0}, "posclass": "client-built-outside-loop"}, {"kind": "cmd", "point": {"t": t0 + 1.1}, "posclass": "client-built-outside-loop"}]
+                elif cause != "none":
+                    faults = [{"kind": cause, "point": {"t": t0 + 1.0}, "posclass": "client-built-outside-loop"}]
+                spec = S(framing=framing, keepalive=keepalive, program=prog, client_outside_loop=True, faults=faults)
+                record(ctx, prop, run_spec(spec), "client-built-outside-loop")
+
+
 def reconnect_in_on_stop_sweep(ctx: Ctx, prop: str) -> None:
     """Several sessions on ONE client object, each next one opened from inside the stop callback of the previous one (at once, i.e. still
     inside the closing connection's clean-up, or after one yield).  Every session has its own callback: each must be invoked exactly once."""
